@@ -8,14 +8,25 @@ Section Greedy.
   Variables (is_extra : edge -> bool) (g' : graph).
   Let g := without is_extra g'.
 
-  Lemma find_without : forall (pr : edge -> bool),
-    (forall e, In e g' -> is_extra e = true -> pr e = false) ->
-    find pr g' = find pr g.
+  Lemma find_filter_extra : forall (pr : edge -> bool) (l : list edge),
+    (forall e, In e l -> is_extra e = true -> pr e = false) ->
+    find pr l = find pr (filter (fun e => negb (is_extra e)) l).
   Proof.
-    unfold g, without. intros pr H. induction g' as [|e l IH]; [reflexivity|]. cbn.
+    intros pr l H. induction l as [|e l IH]; [reflexivity|]. cbn.
     destruct (is_extra e) eqn:X; cbn.
     - rewrite (H e (or_introl eq_refl) X). apply IH. intros e' I. apply H. right. assumption.
     - destruct (pr e); [reflexivity|]. apply IH. intros e' I. apply H. right. assumption.
+  Qed.
+
+  Lemma find_without : forall (pr : edge -> bool),
+    (forall e, In e g' -> is_extra e = true -> pr e = false) ->
+    find pr g' = find pr g.
+  Proof. intros pr H. unfold g, without. apply find_filter_extra. assumption. Qed.
+
+  Lemma filter_rev_comm : forall (A : Type) (f : A -> bool) l, filter f (rev l) = rev (filter f l).
+  Proof.
+    intros A f l. induction l as [|x l IH]; [reflexivity|]. cbn. rewrite filter_app, IH. cbn.
+    destruct (f x); cbn; [reflexivity|]. apply app_nil_r.
   Qed.
 
   Lemma child_without : forall n id,
@@ -28,8 +39,8 @@ Section Greedy.
   Lemma parent_without : forall n,
     (forall e, In e g' -> is_extra e = true -> e_dst e <> n) -> parent g' n = parent g n.
   Proof.
-    intros n H. unfold parent. rewrite find_without; [reflexivity|].
-    intros e I X. apply Nat.eqb_neq. apply H; assumption.
+    intros n H. unfold parent, g, without. rewrite <- filter_rev_comm. rewrite <- find_filter_extra; [reflexivity|].
+    intros e I X. apply in_rev in I. apply Nat.eqb_neq. apply H; assumption.
   Qed.
 
   Variable p : path.
@@ -53,7 +64,7 @@ Section Greedy.
   Proof.
     intros n id K Ip. unfold index_step. destruct (is_super id).
     - rewrite parent_without by (intros e I X; apply New; assumption). split; [reflexivity|].
-      intros t H. unfold parent in H. destruct (find _ g) as [e|] eqn:F; [|discriminate]. apply find_some in F as [I _].
+      intros t H. unfold parent in H. destruct (find _ (rev g)) as [e|] eqn:F; [|discriminate]. apply find_some in F as [I _]. apply in_rev in I.
       inversion H. left. exists e. auto.
     - rewrite child_without by (intros e I X; apply names_spec; assumption). split; [reflexivity|].
       intros t H. unfold child in H. destruct (find _ g) as [e|] eqn:F; [|discriminate]. apply find_some in F as [I _].
@@ -76,7 +87,7 @@ Section Greedy.
     destruct (contains_super p); [reflexivity|].
     rewrite parent_without by (intros e I X; apply New; assumption).
     destruct (parent g n) as [pn|] eqn:P; [|reflexivity]. rewrite IH; [reflexivity|].
-    unfold parent in P. destruct (find _ g) as [e|] eqn:F; [|discriminate]. apply find_some in F as [I _].
+    unfold parent in P. destruct (find _ (rev g)) as [e|] eqn:F; [|discriminate]. apply find_some in F as [I _]. apply in_rev in I.
     inversion P. left. exists e. auto.
   Qed.
 
